@@ -34,6 +34,12 @@ next line starting with `@`):
      @nobody                       keep signature+contract, drop the body (external_body): listed as TRUSTED
      @split EXPR : V1 V2 ..        diagnosis only: on a failed obligation re-verify once per case `EXPR is Vi`
   @end
+  @frag NAME from ALIAS::-::FN     R15: a STATEMENT inside the body of FN becomes the body of a new function NAME; takes the
+     @params a: T, b: U            wrapper's parameter list (the free variables of the statement) and
+     @pattern                      block: token pattern with $n holes, must match exactly ONCE inside the body of FN; the matched
+                                   tokens (holes included) are the extracted text.  Then @spec / @subst / @loop / @closure / @hint
+                                   / @attr / @ret as for @fn (the substitutions see the matched text only).
+  @end
 """
 import os
 import re
@@ -70,6 +76,10 @@ class FnSpec:
         self.imported = None   # name of the unit that proves this function (when pulled in by @use)
         self.optional = False  # @optional: the function need not exist in /repo (a possible override of a trait default)
         self.unless = None     # @unless PATH: skip this entry when the function PATH exists in /repo (trait default vs override)
+        self.frag_name = None  # @frag: name of the wrapper function ...
+        self.frag_of = None    # ... path of the function whose body holds the statement ...
+        self.params = ""       # ... the wrapper's parameter list ...
+        self.pattern = None    # ... and the pattern that locates the statement (rule R15)
 
 
 class Unit:
@@ -159,6 +169,13 @@ def parse_unit(path):
         elif d == "@fn":
             cur = FnSpec(arg)
             u.entries.append(("fn", cur))
+        elif d == "@frag":
+            m_ = re.match(r"(\w+)\s+from\s+(\S.*)$", arg)
+            if not m_:
+                raise SystemExit("%s:%d: expected `@frag NAME from ALIAS::-::FN`" % (path, i))
+            cur = FnSpec("fragment %s of %s" % (m_.group(1), m_.group(2).strip()))
+            cur.frag_name, cur.frag_of = m_.group(1), m_.group(2).strip()
+            u.entries.append(("fn", cur))
         elif d == "@end":
             cur = None
         elif cur is None:
@@ -167,6 +184,10 @@ def parse_unit(path):
             cur.into = arg
         elif d == "@ret":
             cur.ret = arg
+        elif d == "@params":
+            cur.params = arg
+        elif d == "@pattern":
+            cur.pattern, i = block(i)
         elif d == "@self":
             cur.selfty = arg
         elif d == "@attr":
@@ -427,7 +448,7 @@ def fn_exists(u, path):
 
 
 def build_fn(u, fs, log, probe=False):
-    alias, hdr, name = split_fn_path(fs.path)
+    alias, hdr, name = split_fn_path(fs.frag_of or fs.path)
     src = Source.get(u.files[alias])
     item, cont = src.find_fn(hdr, name)
     if item.body is None:
@@ -439,6 +460,24 @@ def build_fn(u, fs, log, probe=False):
     btoks = list(item.body_toks())
     # R9 substitutions first (they work on the pristine token stream)
     body_text = rl.text_of(btoks)
+    if fs.frag_name:
+        # R15 fragment: the statement located by the pattern (exactly one match inside the body of the named function) is
+        # the body of a new function `frag_name(params)`; its tokens are the extracted text, holes included.  What is then
+        # verified is the STATEMENT for all values of its free variables (the parameters); when and with which values the
+        # enclosing function executes it is not part of the claim.
+        mark = "verif_fragment_mark_0"
+        marked, n = rules.subst(body_text, fs.pattern or "", mark)
+        if n != 1 or marked.count(mark) != 1:
+            raise Undecided("R15 pattern of %s: expected exactly one match in %s, found %d" % (fs.frag_name, fs.frag_of, n))
+        pre, post = marked.split(mark)
+        if not (body_text.startswith(pre) and body_text.endswith(post) and len(pre) + len(post) <= len(body_text)):
+            raise Undecided("R15 pattern of %s: cannot delimit the matched text" % fs.frag_name)
+        body_text = "\n" + body_text[len(pre):len(body_text) - len(post)] + "\n"
+        log.append({"rule": "R15 fragment", "fn": fs.path, "of": fs.frag_of, "pattern": " ".join((fs.pattern or "").split()),
+                    "params": fs.params, "text": " ".join(body_text.split())[:400],
+                    "substitutions": [" ".join(a.split()) + " -> " + " ".join(b.split()) for a, b in fs.substs]})
+        name, cont = fs.frag_name, None
+        sig_text = "fn %s(%s)" % (fs.frag_name, fs.params) + ((" -> (%s)" % fs.ret) if fs.ret else "")
     for pat, rep in fs.substs:
         body_text, n = rules.subst(body_text, pat, rep)
         if n == 0 and pat in fs.optional_substs:
@@ -678,7 +717,9 @@ def assemble(unit_path, probe=False, no_hints=False, extra_requires=None, extra_
                 parts.append("} // mod verif_imported\npub use verif_imported::*;\n")
                 # explicit re-exports of imported free functions: they win over glob imports of equally named vstd items
                 for ie in imported:
-                    if ie[0] == "fn":
+                    if ie[0] == "fn" and ie[1].frag_name:
+                        parts.append("pub use verif_imported::%s;\n" % ie[1].frag_name)
+                    elif ie[0] == "fn":
                         a_, hdr_, name_ = split_fn_path(ie[1].path)
                         if hdr_ == "-":
                             parts.append("pub use verif_imported::%s;\n" % name_)
@@ -711,7 +752,7 @@ def assemble(unit_path, probe=False, no_hints=False, extra_requires=None, extra_
             if fs.imported:
                 parts.append("// ---- imported fn %s (unit %s) ----\n" % (fs.path, fs.imported))
             else:
-                parts.append("// ---- extracted fn %s ----\n" % fs.path)
+                parts.append(("// ---- extracted %s ----\n" if fs.frag_name else "// ---- extracted fn %s ----\n") % fs.path)
                 fns.append(fs)
             parts.append(text)
     parts.append(FOOTER)
